@@ -52,21 +52,44 @@ def run(R):
                 return [st.value for st in iter_nodes(f.node) if isinstance(st, ast.Assign) and a0.id in assigned_names(st)
                         and isinstance(st.value, ast.Call) and callee_last(st.value) in ('encode', 'decode')]
             return []
+        def block_of(st):
+            par = getattr(st, '_parent', None)
+            for fld in ('body', 'orelse', 'finalbody'):
+                v = getattr(par, fld, None)
+                if isinstance(v, list) and any(x is st for x in v):
+                    return v
+            return []
         for k in ks:
-            fl = k.args[1] if len(k.args) > 1 else next((kw.value for kw in k.keywords if kw.arg == 'flags'), None)
-            ok = fl is not None and any(norm(x) == '%s.flags' % rp for x in ast.walk(fl))
-            c.check(ok, f, k, 'the re-compiled pattern is given the flags of the original (%s.flags)' % rp,
-                    witness=norm(k), kind='flow', tag='flags-kept:' + norm(k.args[0])[:20])
+            fl0 = k.args[1] if len(k.args) > 1 else next((kw.value for kw in k.keywords if kw.arg == 'flags'), None)
             convs = conversions(k)
             dirs = sorted(set(callee_last(x) for x in convs))
             c.need(dirs, '_coerce_expect_re: how the pattern text of %s is converted was not found' % norm(k)[:50])
+            # the flags expression(s) with the direction each belongs to: written in the call, or bound to a local next to the conversion of the
+            # pattern text (`p = p.encode(..); flags = r.flags & ~re.UNICODE` in one arm, `p = p.decode(..); flags = r.flags` in the other)
+            cases = [(fl0, d_) for d_ in dirs]
+            if isinstance(fl0, ast.Name) and isinstance(k.args[0], ast.Name):
+                fb = [st for st in iter_nodes(f.node) if isinstance(st, ast.Assign) and fl0.id in assigned_names(st)]
+                if fb:
+                    cases = []
+                    for b_ in fb:
+                        here = [st.value for st in block_of(b_) if isinstance(st, ast.Assign) and k.args[0].id in assigned_names(st)
+                                and isinstance(st.value, ast.Call) and callee_last(st.value) in ('encode', 'decode')]
+                        c.need(len(here) == 1, '_coerce_expect_re: the flags bound at L%d cannot be paired with one conversion of the pattern text' % b_.lineno)
+                        cases.append((b_.value, callee_last(here[0])))
+            ok = fl0 is not None and all(any(norm(x) == '%s.flags' % rp for x in ast.walk(fl)) for fl, d_ in cases)
+            c.check(ok, f, k, 'the re-compiled pattern is given the flags of the original (%s.flags)' % rp,
+                    witness=norm(k), kind='flow', tag='flags-kept:' + norm(k.args[0])[:20])
+            fl = fl0
             if ok:
                 # bit-level truth table: every flag of the original survives; the UNICODE bit (illegal for bytes patterns) may only be CLEARED.
                 # A compile shared by both directions must satisfy both rows.
                 bad = None
                 named = sorted(set(x.attr for x in ast.walk(fl) if isinstance(x, ast.Attribute) and isinstance(x.value, ast.Name) and x.value.id == 're'
                                    and x.attr not in ('UNICODE', 'U')))
-                for to_bytes in [d_ == 'encode' for d_ in dirs]:
+                for fl, d_ in cases:
+                    to_bytes = d_ == 'encode'
+                    named = sorted(set(x.attr for x in ast.walk(fl) if isinstance(x, ast.Attribute) and isinstance(x.value, ast.Name) and x.value.id == 're'
+                                       and x.attr not in ('UNICODE', 'U')))
                     for bit in ['UNICODE', 'OTHER'] + named:
                         for inp in (0, 1):
                             try:
